@@ -28,6 +28,8 @@ func RunAny(in Sx) (Sx, []string) {
 		return RunServer(in)
 	case 5:
 		return RunRelay(in)
+	case 6:
+		return RunUnstarted(in)
 	}
 	return Run(CfgOfSx(in))
 }
@@ -81,6 +83,8 @@ func crashObservation(in Sx) Sx {
 		return List(ListOf(nil), Ints(0, 0, 1, 0))
 	case 5:
 		return List(ListOf(nil), ListOf(nil), ListOf(nil), ListOf(nil), Ints(0, 0, 1, 0))
+	case 6:
+		return List(ListOf(nil), Int(0), Int(1), Int(0))
 	}
 	// connection scenario: nothing observed except that the process died (panics = 1)
 	return List(e, e, e, e, e, Ints(0, 0, 0, 0), Ints(0, 0, 0, 0), e, Ints(0, 0), Ints(0, 0), e, Ints(1, 0, 0), Ints(0, 0, 0), e)
@@ -97,6 +101,8 @@ func timeoutObservation(in Sx) Sx {
 		return List(ListOf(nil), Ints(0, 0, 0, 1))
 	case 5:
 		return List(ListOf(nil), ListOf(nil), ListOf(nil), ListOf(nil), Ints(0, 0, 0, 1))
+	case 6:
+		return List(ListOf(nil), Int(0), Int(0), Int(1))
 	}
 	return List(e, e, e, e, e, Ints(0, 0, 0, 0), Ints(0, 0, 0, 0), e, Ints(0, 0), Ints(0, 0), e, Ints(0, 0, 0), Ints(1, 0, 0), e)
 }
